@@ -4,13 +4,16 @@ import (
 	"context"
 	"encoding/json"
 	"fmt"
+	"io"
 	"io/fs"
 	"math/rand"
 	"os"
 	"os/exec"
 	"path/filepath"
+	"sort"
 	"strconv"
 	"strings"
+	"sync/atomic"
 	"syscall"
 	"time"
 
@@ -40,6 +43,87 @@ type fileObs struct {
 	Mode      uint32 `json:"mode"`
 	Dir       bool   `json:"dir"`
 	HasSecret bool   `json:"has_secret"`
+	// Transient: not the state at rest but something a concurrent reader saw WHILE the real code was
+	// saving (which call, which repetition); Mode is the mode the file had right after the reader
+	// had found the secret bytes in it
+	Transient string `json:"transient,omitempty"`
+}
+
+// watchSecrets reads, as fast as it can, every file of the given folders until stop is closed, the
+// way another local user (or a backup job) could: whenever a file holds one of the secrets, its
+// mode is taken (fstat on the same descriptor, after the read) and kept if it is wider than
+// owner-only. A file is looked at again only when its inode / size / mtime / mode changed.
+func watchSecrets(base string, dirs []string, secrets []secret, phase *atomic.Value, stop <-chan struct{}, done chan<- []fileObs) {
+	type stamp struct {
+		ino  uint64
+		size int64
+		mt   int64
+		mode uint32
+	}
+	seen := map[string]stamp{}
+	found := map[string]fileObs{}
+	for {
+		select {
+		case <-stop:
+			var out []fileObs
+			for _, o := range found {
+				out = append(out, o)
+			}
+			sort.Slice(out, func(i, j int) bool { return out[i].Path+out[i].Transient < out[j].Path+out[j].Transient })
+			done <- out
+			return
+		default:
+		}
+		for _, d := range dirs {
+			ents, err := os.ReadDir(d)
+			if err != nil {
+				continue
+			}
+			for _, e := range ents {
+				if e.IsDir() {
+					continue
+				}
+				p := filepath.Join(d, e.Name())
+				f, err := os.Open(p)
+				if err != nil {
+					continue
+				}
+				fi, err := f.Stat()
+				if err != nil || fi.Mode().Perm()&0o077 == 0 || fi.Size() == 0 {
+					_ = f.Close()
+					continue
+				}
+				st := stamp{size: fi.Size(), mt: fi.ModTime().UnixNano(), mode: uint32(fi.Mode().Perm())}
+				if sys, ok := fi.Sys().(*syscall.Stat_t); ok {
+					st.ino = sys.Ino
+				}
+				if seen[p] == st {
+					_ = f.Close()
+					continue
+				}
+				seen[p] = st
+				b, _ := io.ReadAll(f)
+				hit := false
+				for _, s := range secrets {
+					if len(s.hits(b)) > 0 {
+						hit = true
+					}
+				}
+				if hit {
+					// the mode AFTER the secret was read from this very file
+					if fi2, err := f.Stat(); err == nil && fi2.Mode().Perm()&0o077 != 0 {
+						rel, _ := filepath.Rel(base, p)
+						ph, _ := phase.Load().(string)
+						key := rel + "|" + fi2.Mode().Perm().String()
+						if _, dup := found[key]; !dup {
+							found[key] = fileObs{Path: rel, Mode: uint32(fi2.Mode().Perm()), HasSecret: true, Transient: ph}
+						}
+					}
+				}
+				_ = f.Close()
+			}
+		}
+	}
 }
 
 const childEnv = "ZZV_SECRECY_CHILD"
@@ -200,6 +284,24 @@ func childModes() error {
 	if err != nil {
 		return err
 	}
+	// ---- while the secrets are being written: what can a concurrent reader get at, and with which mode? ----
+	var phase atomic.Value
+	phase.Store("")
+	stop, done := make(chan struct{}), make(chan []fileObs, 1)
+	go watchSecrets(base, []string{filepath.Join(mb, beaconID, key.FolderName), filepath.Join(mb, beaconID, key.GroupFolderName)}, secrets, &phase, stop, done)
+	const reps = 6
+	for i := 1; i <= reps; i++ {
+		phase.Store(fmt.Sprintf("inside SaveShare (repetition %d of %d), before the file reached its final name", i, reps))
+		if err := st.SaveShare(shares[0]); err != nil {
+			return fmt.Errorf("SaveShare (repetition %d): %w", i, err)
+		}
+		phase.Store(fmt.Sprintf("inside SaveKeyPair (repetition %d of %d), before the file reached its final name", i, reps))
+		if err := st.SaveKeyPair(pairs[0]); err != nil {
+			return fmt.Errorf("SaveKeyPair (repetition %d): %w", i, err)
+		}
+	}
+	close(stop)
+	obs = append(obs, <-done...)
 	b, _ := json.Marshal(obs)
 	return os.WriteFile(os.Getenv("ZZV_OUTFILE"), b, 0o600)
 }
